@@ -45,7 +45,7 @@ func c05Key(t *rapid.T, label string) ([]byte, string) {
 
 func TestVerif_C05_Block(t *testing.T) {
 	rec := stats.Get("C05", "block")
-	rec.Rule("rapid: key from {uniform, all-00, all-FF, single bit, extreme bytes, the standard's sample}; block uniform / extreme; through sm4.NewCipher: Encrypt, Decrypt, dst==src aliasing, dst and src as sub-slices at a drawn offset, key slice overwritten after construction; an object history before the block operation (AEADs derived from the same Block via cipher.NewGCM*, used for a Seal/Open, or dropped and garbage-collected while the Block lives on, or an earlier Encrypt/Decrypt); key lengths 0..40 for the rejection rule. Oracle: sm4ref (algebraic S-box, anchored to GB/T 32907 A.1/A.2 incl. the 10^6-fold iteration); Decrypt(Encrypt(x)) = x; inputs unmodified. Non-trivial: decrypt or aliasing or a non-sample key; distinct by (key, block, mode).")
+	rec.Rule("rapid: key from {uniform, all-00, all-FF, single bit, extreme bytes, the standard's sample}; block uniform / extreme; through sm4.NewCipher: Encrypt, Decrypt, dst==src aliasing, dst and src as sub-slices at a drawn offset, dst and src LONGER than a block taken from one array with their first blocks 16+ bytes apart (or coinciding), key slice overwritten after construction; an object history before the block operation (AEADs derived from the same Block via cipher.NewGCM*, used for a Seal/Open, or dropped and garbage-collected while the Block lives on, or an earlier Encrypt/Decrypt); key lengths 0..40 for the rejection rule. Oracle: sm4ref (algebraic S-box, anchored to GB/T 32907 A.1/A.2 incl. the 10^6-fold iteration); Decrypt(Encrypt(x)) = x; inputs unmodified. Non-trivial: decrypt or aliasing or a non-sample key; distinct by (key, block, mode).")
 	t.Cleanup(stats.FlushAll)
 	rapid.Check(t, func(t *rapid.T) {
 		key, kcls := c05Key(t, "key")
@@ -102,15 +102,39 @@ func TestVerif_C05_Block(t *testing.T) {
 		wantE, wantD := make([]byte, 16), make([]byte, 16)
 		ref.Encrypt(wantE, blk)
 		ref.Decrypt(wantD, blk)
-		mode := gen.Pick(t, "mode", "enc", "dec", "enc-inplace", "dec-inplace", "enc-offset", "dec-offset")
+		mode := gen.Pick(t, "mode", "enc", "dec", "enc-inplace", "dec-inplace", "enc-offset", "dec-offset", "enc-long-shared", "dec-long-shared")
 		off := gen.Int(t, "off", 0, 17)
-		buf := make([]byte, 64)
+		buf := make([]byte, 160)
 		copy(buf[off:], blk)
 		src := buf[off : off+16]
 		dst := make([]byte, 16+off)[off:]
 		if mode == "enc-inplace" || mode == "dec-inplace" {
 			dst = src
 		}
+		var guardLo, guardHi int // bytes of buf outside the destination block must stay as they are
+		if mode[3:] == "-long-shared" {
+			// dst and src are LONGER than a block and come from one array; the blocks actually processed (their first 16 bytes) start
+			// at least 16 bytes apart — or exactly together — so the call is legal although the slices as a whole overlap
+			doff := off + 16*gen.Uniform(t, "dist", 1, 3) + gen.Uniform(t, "distb", 0, 7)
+			if gen.Uniform(t, "same-start", 0, 4) == 0 {
+				doff = off
+			}
+			src = buf[off : off+16+gen.Uniform(t, "srcextra", 1, 70)]
+			dst = buf[doff : doff+16+gen.Uniform(t, "dstextra", 1, 70)]
+			if gen.Bool(t, "swap") && doff != off { // destination below the source
+				copy(buf[doff:], blk)
+				src, dst = buf[doff:doff+len(dst)], buf[off:off+len(src)]
+			}
+			for i := range buf {
+				if buf[i] == 0 {
+					buf[i] = byte(0x40 + i%7)
+				}
+			}
+			copy(src, blk)
+			guardLo = int(uintptr(len(buf)) - uintptr(cap(dst)))
+			guardHi = guardLo + 16
+		}
+		bufBefore := append([]byte(nil), buf...)
 		want := wantE
 		if p := vt.Catch(func() {
 			if mode[:3] == "enc" {
@@ -131,7 +155,15 @@ func TestVerif_C05_Block(t *testing.T) {
 			vt.Fail(t, rec, "C05:block:"+mode[:3]+":wrong", "%s differs from GB/T 32907\nkey=%x\nblock=%x\n got %x\nwant %x", mode, key, blk, dst[:16], want)
 			return
 		}
-		if dst[:1][0:1] != nil && mode[3:] != "-inplace" && !bytes.Equal(src, blk) {
+		if mode[3:] == "-long-shared" {
+			for i := range buf {
+				if (i < guardLo || i >= guardHi) && buf[i] != bufBefore[i] {
+					vt.Fail(t, rec, "C05:block:writes-outside-block", "%s with dst/src longer than a block in one array changed byte %d, outside the 16-byte destination block (dst starts at %d)", mode, i, guardLo)
+					return
+				}
+			}
+		}
+		if dst[:1][0:1] != nil && mode[3:] != "-inplace" && mode[3:] != "-long-shared" && !bytes.Equal(src, blk) {
 			vt.Fail(t, rec, "C05:block:modifies-src", "%s modified its source block", mode)
 		}
 		if c.BlockSize() != 16 {
